@@ -50,6 +50,88 @@ func (ex *Exec) hashBytes(kind string, pre []Term, n int) []Term {
 	return out
 }
 
+// injectiveAtom: a fresh atom id that is an injective function of the flattened pre-image (same facts as a hash).
+func (ex *Exec) injectiveAtom(kind string, pre []Term) Term {
+	out := ex.aux("inj")
+	ex.assume(Ge(out, IntC(0)))
+	facts := ex.hashes[kind]
+	for _, f := range facts {
+		eqOut := Eq(out, f.out[0])
+		if len(f.pre) != len(pre) {
+			ex.assume(Not(eqOut))
+			continue
+		}
+		eqPre := BoolC(true)
+		for i := range pre {
+			eqPre = And(eqPre, Eq(pre[i], f.pre[i]))
+		}
+		ex.assume(Eq(eqOut, ex.nameT(eqPre)))
+	}
+	ex.hashes[kind] = append(facts, hashFact{pre, []Term{out}})
+	return out
+}
+
+// flattenVal turns a value into a sequence of Int terms that determines it (for injective digests of structures).
+func (ex *Exec) flattenVal(v Value, out *[]Term) bool {
+	switch x := v.(type) {
+	case VInt:
+		*out = append(*out, x.T)
+	case VBool:
+		*out = append(*out, Ite(x.T, IntC(1), IntC(0)))
+	case VStr:
+		if x.Atom != nil {
+			*out = append(*out, IntC(-7), *x.Atom)
+			return true
+		}
+		ts, ok := ex.byteTerms(x)
+		if !ok {
+			return false
+		}
+		*out = append(*out, IntC(int64(len(ts))))
+		*out = append(*out, ts...)
+	case VSlice:
+		es := sliceElems(x)
+		*out = append(*out, IntC(int64(len(es))))
+		for _, e := range es {
+			if !ex.flattenVal(e, out) {
+				return false
+			}
+		}
+	case VArr:
+		for _, e := range x.E {
+			if !ex.flattenVal(e, out) {
+				return false
+			}
+		}
+	case VStruct:
+		for _, e := range x.F {
+			if !ex.flattenVal(e, out) {
+				return false
+			}
+		}
+	case VPtr:
+		if x.O == nil {
+			*out = append(*out, IntC(-9))
+			return true
+		}
+		return ex.flattenVal(x.load(), out)
+	case VIface:
+		if x.Typ == nil {
+			*out = append(*out, IntC(-9))
+			return true
+		}
+		return ex.flattenVal(x.V, out)
+	case VOpaque:
+		if x.Kind == "marshaled" {
+			return ex.flattenVal(x.Data.(Value), out)
+		}
+		return false
+	default:
+		return false
+	}
+	return true
+}
+
 func termsToSlice(ex *Exec, ts []Term) VSlice {
 	e := make([]Value, len(ts))
 	for i, t := range ts {
@@ -309,6 +391,13 @@ func init() {
 			return termsToSlice(ex, ex.hashBytes("keccak", pre, 32))
 		}
 		m["crypto/sha256.Sum256"] = func(ex *Exec, fr *frame, cc *ssa.CallCommon, a []Value) Value {
+			if o, ok := a[0].(VOpaque); ok && o.Kind == "marshaled" {
+				var flat []Term
+				if !ex.flattenVal(o, &flat) {
+					panic(unsupported{"sha256 of a marshaled value with atoms-free flattening failed"})
+				}
+				return termsToArr(ex.hashBytes("sha256-marshaled", flat, 32))
+			}
 			return termsToArr(ex.hashBytes("sha256", ex.mustBytes(a[0], "sha256"), 32))
 		}
 		m["github.com/ethereum/go-ethereum/common.BytesToAddress"] = func(ex *Exec, fr *frame, cc *ssa.CallCommon, a []Value) Value {
